@@ -88,6 +88,8 @@ const LAYERS: &[&str] = &[
     "[fractions]\nmetric = true\n[fractions.unit]\ng = { max_whole = 5 }",
     "[fractions.unit]\nzz = true",
     "[fractions]\nall = { enabled = true, accuracy = 2.0, max_denominator = 200 }",
+    "[fractions]\nmetric = false\nimperial = { enabled = true, max_denominator = 8 }",
+    "[fractions.quantity]\nmass = { enabled = true, accuracy = 0.2, max_denominator = 2 }\n[fractions.unit]\noz = { max_whole = 3 }",
     "default_system = \"imperial\"",
 ];
 
@@ -514,6 +516,18 @@ pub fn check_sequence(seq: &[usize]) -> Vec<Violation> {
                     }
                 }
             }
+            // fraction settings of the layers: later group-level settings reach the per-unit entries of earlier
+            // layers; observed through try_fraction against the approximation under the reference limits
+            let fr: Vec<cooklang::convert::units_file::Fractions> = files.iter().filter_map(|f| f.fractions.clone()).collect();
+            if !fr.is_empty() {
+                for u in c.all_units() {
+                    for v in [0.12, 0.25, 0.5, 1.5, 2.3333, 3.5, 5.5, 7.0] {
+                        if let Some(m) = crate::c12::try_fraction_mismatch(&c, &fr, u, v) {
+                            fail!("fraction settings differ from the layering model", "{m}");
+                        }
+                    }
+                }
+            }
             out
         }
     }
@@ -588,7 +602,7 @@ pub fn run(tier: Tier) {
     let c = ctx();
     let depth = tier.pick(3, 4);
     let n = LAYERS.len() as u64;
-    c.set_rule(format!("every sequence of 0..={depth} layers from a menu of {n} (extend blocks with each precedence on names / symbols / aliases / ratio, on expanded units, two keys of one unit, colliding keys, unknown and empty keys; SI prefix layers with each precedence; new units colliding with declared and expanded keys; best lists valid, empty, unknown, of another quantity; fractions; default system) on top of a fixed base file, each built twice from freshly parsed TOML; oracle: no panic; Ok => every key resolves to its unit, no shared key, best lists non-empty / own quantity / ascending and usable, units, best lists and default system equal the reference layering model; model finds an inconsistency => rejected; model finds none => accepted; plus Converter::default() == converter built from units.toml (incl. fraction behaviour on a grid); non-trivial = the sequence builds a converter; distinct = distinct layer sequences"));
+    c.set_rule(format!("every sequence of 0..={depth} layers from a menu of {n} (extend blocks with each precedence on names / symbols / aliases / ratio, on expanded units, two keys of one unit, colliding keys, unknown and empty keys; SI prefix layers with each precedence; new units colliding with declared and expanded keys; best lists valid, empty, unknown, of another quantity; fractions; default system) on top of a fixed base file, each built twice from freshly parsed TOML; oracle: no panic; Ok => every key resolves to its unit, no shared key, best lists non-empty / own quantity / ascending and usable, units, best lists, default system and fraction limits (through try_fraction on 8 values per unit) equal the reference layering model; model finds an inconsistency => rejected; model finds none => accepted; plus Converter::default() == converter built from units.toml (incl. fraction behaviour on a grid); non-trivial = the sequence builds a converter; distinct = distinct layer sequences"));
     c.part(json!({"base": BASE, "menu": LAYERS}));
     for l in LAYERS {
         if let Err(e) = toml::from_str::<UnitsFile>(l) {
